@@ -74,27 +74,24 @@ OutcomeOk(wellformed, outcome) == IF wellformed THEN outcome = "ok" ELSE outcome
 (***************************************************************************)
 SP == 32  LF == 10  NEL == 133  BSL == 92
 Brk == {10, 133, 8232, 8233}
-\* b is a with some spaces of more-indented lines (lines of a that begin with a space) turned into a line feed or lost;
-\* more = the current line of a began with a space, bol = at the beginning of a line of a, n = number of such edits
-RECURSIVE MoreIndentedEdit(_, _, _, _, _)
-MoreIndentedEdit(a, b, more, bol, n) ==
-  IF a = <<>> THEN b = <<>> /\ n > 0
-  ELSE LET c == Head(a)
-           m == IF bol THEN c = SP ELSE more
-           nb == c \in Brk
-       IN  \/ b # <<>> /\ Head(b) = c /\ MoreIndentedEdit(Tail(a), Tail(b), m, nb, n)
-           \/ c = SP /\ m /\ b # <<>> /\ Head(b) = LF /\ MoreIndentedEdit(Tail(a), Tail(b), m, FALSE, n + 1)
-           \/ c = SP /\ m /\ MoreIndentedEdit(Tail(a), b, m, FALSE, n + 1)
+LineStart(a, j) == LET ks == {k \in 1 .. j - 1 : a[k] \in Brk}
+                   IN  IF ks = {} THEN 1 ELSE (CHOOSE k \in ks : \A m \in ks : m <= k) + 1
+\* a fold point inside a more-indented line: a single space, in a line that begins with a space, in front of a character
+FoldPointInMoreIndentedLine(a) ==
+  \E j \in DOMAIN a : /\ a[j] = SP /\ a[LineStart(a, j)] = SP
+                       /\ j < Len(a) /\ a[j + 1] \notin Brk \cup {SP}
+                       /\ (j = LineStart(a, j) \/ a[j - 1] # SP)
+Without(x, set) == SelectSeq(x, LAMBDA c : c \notin set)
 RECURSIVE RefoldMatch(_, _, _)
 RefoldMatch(a, b, n) ==                          \* b = a with n>0 insertions of <<backslash, space>> in front of a space
   IF a = <<>> /\ b = <<>> THEN n > 0
   ELSE IF a # <<>> /\ b # <<>> /\ Head(a) = Head(b) THEN RefoldMatch(Tail(a), Tail(b), n)
   ELSE IF Len(b) >= 3 /\ b[1] = BSL /\ b[2] = SP /\ a # <<>> /\ Head(a) = SP THEN RefoldMatch(a, SubSeq(b, 3, Len(b)), n + 1)
   ELSE FALSE
+\* the shape of the change and the feature of the input that the known defect needs
 DiffClass(a, b) ==
-  LET D == IF Len(a) = Len(b) THEN {j \in DOMAIN a : a[j] # b[j]} ELSE {}
-  IN  IF Len(a) = Len(b) /\ D # {} /\ \A j \in D : a[j] = NEL /\ b[j] = LF THEN "nel-read-as-lf"
-      ELSE IF MoreIndentedEdit(a, b, FALSE, TRUE, 0) THEN "fold-in-more-indented-line"
-      ELSE IF RefoldMatch(a, b, 0) THEN "backslash-doubled-fold"
-      ELSE "other"
+  IF (\E j \in DOMAIN a : a[j] = NEL) /\ Without(a, {NEL, LF, SP}) = Without(b, {NEL, LF, SP}) THEN "nel-read-as-break"
+  ELSE IF FoldPointInMoreIndentedLine(a) /\ Without(a, {LF, SP}) = Without(b, {LF, SP}) THEN "fold-in-more-indented-line"
+  ELSE IF RefoldMatch(a, b, 0) THEN "backslash-doubled-fold"
+  ELSE "other"
 =============================================================================
